@@ -254,6 +254,8 @@ def thrOps : EngineOps ThrEngine Int Int Nat where
   process e x := some ({ e with processed := e.processed + 1 }, if x > e.thr then [x] else [])
   checkpoint e := e.processed
   restore e ck := some { e with processed := ck }
-  reload e s := s.toInt?.map fun t => { e with thr := t }
+  -- `Engine::reload` keeps the compiled stream when source type and operation count are unchanged
+  -- ("state preserved"): with the tie's programs the old threshold stays in force (C23's subject)
+  reload e s := s.toInt?.map fun _ => e
 
 end Varpulis.TenantApi
